@@ -87,9 +87,10 @@ Fixpoint eval_items (en : env) (items : list item) (un : option val) : res (list
       | IStarB => do f <- record_b en; do r <- eval_items en t un; Ok (lift f ++ fst r, snd r)
       | IUnnest e =>
           do v <- eval en e;
-          match un with
-          | Some _ => Err (XParsing 1)
-          | None => do r <- eval_items en t (Some v); Ok (SlUnnest :: fst r, snd r)
+          match v, un with
+          | VA ANone, _ => Err XUnmodelled      (* UNNEST(None) leaves unnest_list unset: outside the model *)
+          | _, Some _ => Err (XParsing 1)
+          | _, None => do r <- eval_items en t (Some v); Ok (SlUnnest :: fst r, snd r)
           end
       end
   end.
